@@ -693,6 +693,24 @@ func ReplayFile(t *testing.T, path string) int {
 		fmt.Println("ENGINE-ERROR", err)
 		return 3
 	}
+	if n := os.Getenv("VERIF_REPLAY_N"); n != "" {
+		// determinism probe: execute the same schedule many times and count distinct behaviours
+		var cnt int
+		fmt.Sscan(n, &cnt)
+		seen := map[string]int{}
+		for i := 0; i < cnt; i++ {
+			r := Execute(t, sc, v.Replay.Choices)
+			k := r.EngineErr
+			if k == "" {
+				k = fmt.Sprint(r.Points) + obsOf(r)
+			}
+			seen[k]++
+		}
+		for k, c := range seen {
+			fmt.Printf("---- %d times:\n%s\n", c, k)
+		}
+		return 0
+	}
 	r := Execute(t, sc, v.Replay.Choices)
 	if r.EngineErr != "" {
 		fmt.Println("ENGINE-ERROR", r.EngineErr)
